@@ -275,6 +275,10 @@ impl Report {
                 self.skipped.fetch_add(1, Ordering::Relaxed);
                 if why.starts_with("UNDECIDED") {
                     self.exhaustive.store(false, Ordering::Relaxed);
+                    static SHOWN: std::sync::atomic::AtomicUsize = std::sync::atomic::AtomicUsize::new(0);
+                    if SHOWN.fetch_add(1, Ordering::Relaxed) < 8 {
+                        println!("NOT-EXHAUSTIVE: [{section}] {}", trunc(why, 900));
+                    }
                     self.observe(format!("[{section}] {why}"));
                 }
             }
